@@ -1117,3 +1117,150 @@ func R15PackVerbatim(c *Ctx) {
 		})
 	}
 }
+
+// R15FirstAddress: GetInterfaceIpv4Addr is on the reviewed list of transformations of a packed host. What it hands to
+// the builder is the first IPv4 address of the interface; the search keeps its result in a loop-carried variable that
+// is tested after the loop. The search may go round again only while that variable still holds nothing: a candidate
+// that flows into the variable on a way back to the loop header must be known nil there (or the variable known nil, for
+// a guarded assignment). Otherwise a later non-IPv4 address overwrites the one found (an unlabelled break that only
+// leaves a switch, for instance). Shapes the rule cannot read are not judged.
+func R15FirstAddress(c *Ctx) {
+	const rule = "R15-first-address"
+	c.R.Rule(rule, "in common.GetInterfaceIpv4Addr the address search goes round again only with nothing found: every value that reaches the loop-carried result on a path back to the loop header is the carried value itself, or is known nil on that path (or is assigned where the carried value is known nil)", 1)
+	fn := c.P.Func(PkgCommon, "GetInterfaceIpv4Addr")
+	if fn == nil || fn.Blocks == nil {
+		c.R.Anchor(rule, "common.GetInterfaceIpv4Addr")
+		return
+	}
+	isNilConst := func(v ssa.Value) bool {
+		k, ok := v.(*ssa.Const)
+		return ok && k.IsNil()
+	}
+	// nilness of v (or of one of alts) implied by a condition with a given truth
+	knownNil := func(cond ssa.Value, truth bool, vs ...ssa.Value) bool {
+		cond, truth = StripNot(cond, truth)
+		bo, ok := cond.(*ssa.BinOp)
+		if !ok || (bo.Op != token.EQL && bo.Op != token.NEQ) {
+			return false
+		}
+		var x ssa.Value
+		switch {
+		case isNilConst(bo.Y):
+			x = bo.X
+		case isNilConst(bo.X):
+			x = bo.Y
+		default:
+			return false
+		}
+		if (bo.Op == token.EQL) != truth {
+			return false
+		}
+		for _, v := range vs {
+			if x == v {
+				return true
+			}
+		}
+		return false
+	}
+	edgeKnowsNil := func(pred, to *ssa.BasicBlock, vs ...ssa.Value) bool {
+		for _, f := range FactsAtDeep(pred) {
+			if knownNil(f.Cond, f.Truth, vs...) {
+				return true
+			}
+		}
+		if len(pred.Instrs) > 0 {
+			if iff, ok := pred.Instrs[len(pred.Instrs)-1].(*ssa.If); ok && pred.Succs[0] != pred.Succs[1] {
+				if knownNil(iff.Cond, pred.Succs[0] == to, vs...) {
+					return true
+				}
+			}
+		}
+		return false
+	}
+	n := 0
+	root := fn
+	var fns []*ssa.Function
+	for _, h := range HelperClosure(root, 2) {
+		if h.Blocks != nil && FuncPkgPathOf(h) == PkgCommon {
+			fns = append(fns, h)
+		}
+	}
+	for _, fn := range fns {
+		for _, l := range naturalLoops(fn) {
+			for _, in := range l.header.Instrs {
+				phi, ok := in.(*ssa.Phi)
+				if !ok {
+					break
+				}
+				switch phi.Type().Underlying().(type) {
+				case *types.Slice, *types.Pointer, *types.Interface, *types.Map:
+				default:
+					continue
+				}
+				// the carried value must be what a nil test after the loop reads
+				tested := false
+				for _, r := range *phi.Referrers() {
+					if bo, ok := r.(*ssa.BinOp); ok && (isNilConst(bo.X) || isNilConst(bo.Y)) {
+						tested = true
+					}
+					if p2, ok := r.(*ssa.Phi); ok && !l.body[p2.Block()] {
+						for _, r2 := range *p2.Referrers() {
+							if bo, ok := r2.(*ssa.BinOp); ok && (isNilConst(bo.X) || isNilConst(bo.Y)) {
+								tested = true
+							}
+						}
+					}
+				}
+				if !tested {
+					continue
+				}
+				n++
+				construct := "search result " + phi.Comment
+				var bad ssa.Value
+				var badAt *ssa.BasicBlock
+				seen := map[ssa.Value]bool{}
+				var check func(v ssa.Value, pred, to *ssa.BasicBlock)
+				check = func(v ssa.Value, pred, to *ssa.BasicBlock) {
+					if v == ssa.Value(phi) || isNilConst(v) || bad != nil {
+						return
+					}
+					if p, ok := v.(*ssa.Phi); ok && l.body[p.Block()] && p.Block() != l.header {
+						if seen[p] {
+							return
+						}
+						seen[p] = true
+						for i, e := range p.Edges {
+							check(e, p.Block().Preds[i], p.Block())
+						}
+						return
+					}
+					if edgeKnowsNil(pred, to, v, phi) {
+						return
+					}
+					// the nilness may have been settled further up the way: any dominating fact of the phi's own block
+					bad, badAt = v, pred
+				}
+				for i, e := range phi.Edges {
+					p := l.header.Preds[i]
+					if !l.body[p] {
+						continue
+					}
+					check(e, p, l.header)
+				}
+				if bad == nil {
+					c.R.Ok(rule, FuncShort(fn), construct, c.pos(phi.Pos()), "the search continues only while nothing was found", true)
+				} else {
+					pos := phi.Pos()
+					if bi, ok := bad.(ssa.Instruction); ok && bi.Pos().IsValid() {
+						pos = bi.Pos()
+					}
+					_ = badAt
+					c.R.Bad(rule, FuncShort(fn), construct, c.pos(pos), "a candidate that may be non-nil flows into the result on a way back to the loop header: the next address overwrites the IPv4 address already found (an unlabelled break that leaves only a switch has this effect), so the host handed to the builder is not the interface's first IPv4 address")
+				}
+			}
+		}
+	}
+	if n == 0 {
+		c.R.Ok(rule, FuncShort(root), "address search", c.pos(root.Pos()), "no loop of the function or its helpers carries a nil-tested result round: a search that returns from inside the loop has nothing to overwrite", false)
+	}
+}
